@@ -188,6 +188,103 @@ def unit(arg):
     return dict(first=f'{first}>{second} case={case}', stats=ex.stats(), bad=bad[:10], nbad=len(bad), ok=ok, samples=samples)
 
 
+def witness_unit(name):
+    '''Every rule that introduces a witness uses a fresh item: the real rule
+    objects of one logic on real branches whose constants / worlds are in
+    adverse order (the highest name is not the one the rule works on).'''
+    from pytableaux.lang import Atomic, Constant, Operator, Predicate, Quantifier, Variable
+    from pytableaux.logics import registry
+    from pytableaux.proof import Tableau, anode, sdwnode
+    from pytableaux.proof.helpers import MaxConsts
+    from engine.tabutil import reset_order
+    registry.import_all()
+    logic = registry(name)
+    modal = bool(logic.Meta.modal)
+    A = Atomic(0, 0)
+    F, G = Predicate(0, 0, 1), Predicate(1, 0, 1)
+    x = Variable(0, 0)
+    out = dict(logic=name, cases=0, bad=[])
+    fde = any(getattr(r, 'designation', None) is not None for r in logic.Rules.all())
+    for rulecls in logic.Rules.all():
+        if getattr(rulecls, 'closure', False):
+            continue
+        d = getattr(rulecls, 'designation', None)
+        neg = bool(getattr(rulecls, 'negated', False))
+        q = getattr(rulecls, 'quantifier', None)
+        op = getattr(rulecls, 'operator', None)
+        ctxs = []
+        from pytableaux.proof import rules as R_
+        is_q_witness = (q is not None and issubclass(rulecls, R_.NarrowQuantifierRule)
+                        and not issubclass(rulecls, R_.ExtendedQuantifierRule))
+        is_m_witness = (op in (Operator.Possibility, Operator.Necessity)
+                        and issubclass(rulecls, R_.ModalOperatorRule) and rulecls.ticking)
+        if is_q_witness:
+            s = q(x, F(x))
+            if neg:
+                s = ~s
+            w0 = 0 if modal else None
+            for consts in ([Constant(1, 0), Constant(0, 0)], [Constant(0, 1), Constant(3, 0)],
+                           [Constant(2, 0)], [Constant(0, 2), Constant(0, 0), Constant(1, 0)]):
+                ctxs.append(([sdwnode(G(c), d, w0) for c in consts], sdwnode(s, d, w0)))
+        elif is_m_witness:
+            s = op(A)
+            if neg:
+                s = ~s
+            for acc, w in (([(0, 2)], 0), ([(0, 1), (1, 3)], 1), ([(2, 1)], 1), ([(0, 1), (0, 2)], 1)):
+                ctxs.append(([anode(*p) for p in acc] + [sdwnode(A, d, max(max(p) for p in acc))],
+                             sdwnode(s, d, w)))
+        elif rulecls.name == 'Serial':
+            dd = True if fde else None
+            for worlds, acc in (([0, 1, 2], [(1, 2), (2, 2)]), ([0, 1], [(1, 1)]), ([0, 2], [(2, 0)]),
+                                ([1, 3], [(3, 3)])):
+                ctxs.append(([sdwnode(Atomic(i, 0), dd, w) for i, w in enumerate(worlds)]
+                             + [anode(*p) for p in acc], None))
+        for ctx, node in ctxs:
+            reset_order()
+            tab = Tableau(logic)
+            rule = tab.rules.get(rulecls)
+            branch = tab.branch()
+            for r_ in tab.rules:
+                h = r_.helpers.get(MaxConsts)
+                if h is not None:
+                    h[branch] = 1000
+            branch.extend(ctx)
+            if node is not None:
+                branch.append(node)
+            consts0 = set(branch.constants)
+            worlds0 = set(branch.worlds)
+            target = rule.target(branch)
+            if target is None or 'adds' not in target:
+                continue
+            out['cases'] += 1
+            newc, neww = set(), set()
+            for g in target['adds']:
+                for n in g:
+                    s_ = n.get('sentence')
+                    if s_ is not None:
+                        newc |= set(s_.constants)
+                    for k in ('world', 'world1', 'world2'):
+                        if n.get(k) is not None:
+                            neww.add(n[k])
+            # the witness is the name in the additions that the expanded node does not mention
+            base_c = set(node['sentence'].constants) if node is not None else set()
+            wit_c = newc - base_c
+            if is_q_witness and wit_c & consts0:
+                out['bad'].append(dict(rule=rulecls.name, what=f'witness constant {sorted(map(str, wit_c & consts0))} '
+                                       f'already on the branch (constants {sorted(map(str, consts0))})'))
+            if is_q_witness and not wit_c:
+                out['bad'].append(dict(rule=rulecls.name, what='no witness constant introduced'))
+            if not is_q_witness:
+                src = node['world'] if node is not None else None
+                wit_w = {w for w in neww if w != src and not (node is None and w in worlds0 and any(
+                    n.get('world1') == w for g in target['adds'] for n in g))}
+                fresh = neww - worlds0
+                if not fresh:
+                    out['bad'].append(dict(rule=rulecls.name, what=f'no fresh world: additions use {sorted(neww)} '
+                                           f'on a branch with worlds {sorted(worlds0)}'))
+    return out
+
+
 def run(ctx):
     rep = Report('C06', 'model_checking')
     n_steps = 3 if ctx.quick else 4
@@ -199,8 +296,24 @@ def run(ctx):
               if 'const2' in (k, k2) and (k, k2) != ('const2', 'const2')]
     units += [('const2', shallow, budget, KINDS, ['const2'], case) for case in range(5)]
     units.sort(key=lambda u: (u[0], u[4]) != ('const2', ['const2']))
+    from pytableaux.logics import registry
+    registry.import_all()
+    names = sorted(registry(n).Meta.name for n in registry.all())
     with mp.Pool(ctx.jobs) as pool:
+        wres = pool.map_async(witness_unit, names, chunksize=2)
         results = pool.map(unit, units, chunksize=1)
+        wres = wres.get()
+    witness_cases = 0
+    for r in wres:
+        witness_cases += r['cases']
+        seen_w = set()
+        for b in r['bad']:
+            key = f'C06|witness|{r["logic"]}|{b["rule"]}'
+            if key in seen_w:
+                continue
+            seen_w.add(key)
+            rep.violation(key, f'{r["logic"]} {b["rule"]}: {b["what"]}',
+                          dict(kind='witness', logic=r['logic'], rule=b['rule']))
     paths = trans = queries = 0
     st_time = 0.0
     samples = []
@@ -229,6 +342,7 @@ def run(ctx):
                                witness=b['witness'], log=b['log'], error=b['error']))
     rep.coverage = dict(
         states=paths, transitions=trans, traces_validated_against_impl=0, samples=samples[:4],
+        witness_rule_cases=witness_cases,
         bounds=dict(history_length=f'{n_steps} steps with one-constant sentences, {n_steps - 1} with two-constant sentences',
                     constants_per_sentence='<=2',
                     index='0..3', subscript='>=0 (unbounded)', worlds='>=0 (unbounded)',
@@ -246,6 +360,10 @@ def run(ctx):
 
 def replay(data):
     'Concrete re-run of the history with the witness coordinates; plain ints.'
+    if data.get('kind') == 'witness':
+        r = witness_unit(data['logic'])
+        hit = [b for b in r['bad'] if b['rule'] == data['rule']]
+        return bool(hit), f'{data["logic"]} {data["rule"]}: {hit[:1]}'
     fn = harness([data['first']], data['n_steps'], tuple(data.get('kinds', KINDS)), data.get('second'))
     drv = ReplayDriver(data['picks'], data['witness'])
     try:
